@@ -17,6 +17,7 @@ package main
 
 import (
 	"fmt"
+	"go/ast"
 	"go/types"
 	"os"
 	"sort"
@@ -29,17 +30,26 @@ type loopPair struct {
 	repo, ref string
 	refExtra  map[string]string // reference parameter -> package-level variable it points to
 	tables    map[string]int64
+	inputs    []string // read-only slice parameters of the repository function
+	requires  []string // precondition of the equivalence (over the repository function's parameters); it is
+	// also a `requires` of the function's contract in /repo, so every call site proves it
+	invariants []string // facts about the repository side's cells at every paired loop head (proved inductively
+	// together with the equality of the two states)
 }
 
 var loopPairs = []loopPair{
-	{"fp.(*decimal).floatBits", "strconv.(*decimal).floatBits", map[string]string{"flt": "float64info"}, map[string]int64{"powtab": 9}},
-	{"fp.(*decimal).Shift", "strconv.(*decimal).Shift", nil, nil},
-	{"fp.rightShift", "strconv.rightShift", nil, nil},
-	{"fp.leftShift", "strconv.leftShift", nil, map[string]int64{"leftcheats": 61}},
-	{"fp.prefixIsLessThan", "strconv.prefixIsLessThan", nil, nil},
-	{"fp.trim", "strconv.trim", nil, nil},
-	{"fp.shouldRoundUp", "strconv.shouldRoundUp", nil, nil},
-	{"fp.(*decimal).RoundedInteger", "strconv.(*decimal).RoundedInteger", nil, nil},
+	{"fp.(*decimal).floatBits", "strconv.(*decimal).floatBits", map[string]string{"flt": "float64info"}, map[string]int64{"powtab": 9}, nil, nil, nil},
+	{"fp.(*decimal).Shift", "strconv.(*decimal).Shift", nil, nil, nil, nil, nil},
+	{"fp.rightShift", "strconv.rightShift", nil, nil, nil, nil, nil},
+	{"fp.leftShift", "strconv.leftShift", nil, map[string]int64{"leftcheats": 61}, nil, nil, nil},
+	{"fp.prefixIsLessThan", "strconv.prefixIsLessThan", nil, nil, nil, nil, nil},
+	{"fp.trim", "strconv.trim", nil, nil, nil, nil, nil},
+	{"fp.shouldRoundUp", "strconv.shouldRoundUp", nil, nil, nil, nil, nil},
+	{"fp.(*decimal).RoundedInteger", "strconv.(*decimal).RoundedInteger", nil, nil, nil, nil, nil},
+	// set: strconv's version also skips '_' and accepts a leading '+'; on inputs without them (which is
+	// what ParseJSONFloatPrefix passes: the bytes of an accepted JSON number) the two agree
+	{"fp.(*decimal).set", "strconv.(*decimal).set", nil, nil, []string{"data"},
+		[]string{"forall(j, 0, len(data), data[j] != '_')", "len(data) > 0", "data[0] != '+'"}, []string{"!ok"}},
 }
 
 func stripPkg(key string) string {
@@ -221,8 +231,53 @@ func (r *Runner) loopEquivObligations() []*LedgerEntry {
 			fail(base+"/functions-present", "function not found")
 			continue
 		}
+		var fcA *FuncContract
+		if len(pr.inputs)+len(pr.requires) > 0 {
+			fcA = &FuncContract{Name: pr.repo, Input: map[string]bool{}, Scratch: map[string]bool{}, Loops: map[int]*LoopContract{}, SimOpts: map[string]string{}}
+			for _, n := range pr.inputs {
+				fcA.Input[n] = true
+			}
+			for _, n := range fa.Params {
+				fcA.Params = append(fcA.Params, n.Name())
+			}
+			okReq := true
+			for _, txt := range pr.requires {
+				e, err := parseSpecExpr(txt)
+				if err != nil {
+					fail(base+"/precondition-parses", err.Error())
+					okReq = false
+					continue
+				}
+				fcA.Requires = append(fcA.Requires, &Clause{Text: txt, Expr: e})
+			}
+			if !okReq {
+				continue
+			}
+			// the same precondition must be part of the function's contract in /repo (proved at call sites)
+			real := eng.contracts.Funcs[pr.repo]
+			for _, txt := range pr.requires {
+				found := false
+				if real != nil {
+					for _, c := range real.Requires {
+						if strings.Contains(strings.Join(strings.Fields(c.Text), ""), strings.Join(strings.Fields(txt), "")) {
+							found = true
+						}
+					}
+				}
+				e := &LedgerEntry{Name: base + "/precondition-is-a-requires-of-the-contract/" + txt, Kind: "equiv", Fn: pr.repo, Instances: 1, Status: "discharged", Solver: "contract-text"}
+				if !found {
+					e.Status = "failed"
+					e.Detail = "the equivalence is proved under a precondition that the contract in /repo does not require of callers"
+				}
+				add(e)
+			}
+		}
 		mk := func(fn *ssa.Function) *FuncProof {
-			fp := eng.NewFuncProof(fn, nil, ProofOpts{Mode: "hostile"})
+			var fc *FuncContract
+			if fn == fa {
+				fc = fcA
+			}
+			fp := eng.NewFuncProof(fn, fc, ProofOpts{Mode: "hostile"})
 			ex := fp.ex
 			ex.equivCalls = canon
 			ex.sharedTables = map[string]bool{}
@@ -253,7 +308,13 @@ func (r *Runner) loopEquivObligations() []*LedgerEntry {
 				continue
 			}
 			if na < len(fa.Params) {
-				exB.params[p.Name()] = exA.params[fa.Params[na].Name()]
+				av := exA.params[fa.Params[na].Name()]
+				if sv, ok := av.(*SliceV); ok {
+					if bt, isStr := p.Type().Underlying().(*types.Basic); isStr && bt.Kind() == types.String {
+						av = &StringV{Reg: sv.Reg, Off: sv.Off, Len: sv.Len}
+					}
+				}
+				exB.params[p.Name()] = av
 				na++
 			}
 		}
@@ -312,6 +373,15 @@ func (r *Runner) loopEquivObligations() []*LedgerEntry {
 		for n, a := range exB.cells {
 			cellsB[n] = a
 		}
+		var invExprs []ast.Expr
+		for _, txt := range pr.invariants {
+			e, err := parseSpecExpr(txt)
+			if err != nil {
+				fail(base+"/invariant-parses", err.Error())
+				continue
+			}
+			invExprs = append(invExprs, e)
+		}
 		var starts []eqStart
 		starts = append(starts, eqStart{nil, nil, fpA.s0, fpB.s0})
 		for _, c := range ca {
@@ -334,6 +404,10 @@ func (r *Runner) loopEquivObligations() []*LedgerEntry {
 				if v, ok := sa.store[al]; ok && exB.mutable[bl] {
 					sb.store[bl] = v
 				}
+			}
+			sa = sa.clone()
+			for _, t := range evalInvs(exA, sa, invExprs) {
+				sa.assume(t)
 			}
 			sb.pc = append(append([]*Term{}, sa.pc...), sb.pc...)
 			starts = append(starts, eqStart{c, pairOf[c], sa, sb})
@@ -395,6 +469,9 @@ func (r *Runner) loopEquivObligations() []*LedgerEntry {
 					alts = append(alts, And(pb.St.branches[len(s.sb.branches):]...))
 				}
 				hyps := append([]*Term{}, pa.St.pc...)
+				if s.a != nil {
+					hyps = append(hyps, evalInvs(exA, fpA.starts[s.a], invExprs)...)
+				}
 				qf := append([]*QFact{}, pa.St.qfacts...)
 				for _, pb := range match {
 					// facts assumed on the reference side about values it introduced (callee results etc.)
@@ -422,6 +499,9 @@ func (r *Runner) loopEquivObligations() []*LedgerEntry {
 				}
 				for _, pb := range match {
 					goal := eqOutcome(exA, exB, pa, pb)
+					if pa.Kind == "cut" {
+						goal = And(append([]*Term{goal}, evalInvs(exA, pa.St, invExprs)...)...)
+					}
 					e := &LedgerEntry{Name: name + "/equal-outcome", Kind: "equiv", Fn: pr.repo, Instances: 1, Status: "discharged", Solver: "term-identity"}
 					if goal != True {
 						h2 := append(append([]*Term{}, hyps...), pb.St.pc[len(s.sb.pc):]...)
@@ -630,4 +710,21 @@ func readOnlyParam(v ssa.Value, depth int) bool {
 		}
 	}
 	return true
+}
+
+func evalInvs(ex *Exec, st *State, es []ast.Expr) []*Term {
+	var out []*Term
+	for _, e := range es {
+		env := ex.cellEnv(st, false)
+		var hs []*Term
+		var qs []*QFact
+		env.hsink, env.qsink = &hs, &qs
+		t, err := env.EvalBool(e)
+		if err != nil {
+			out = append(out, False)
+			continue
+		}
+		out = append(out, t)
+	}
+	return out
 }
